@@ -22,3 +22,29 @@ pub unsafe extern "C" fn getrandom(buf: *mut u8, len: usize, _flags: u32) -> isi
     }
     len as isize
 }
+
+// ------------------------------------------------------------------------------------------------
+// clock seam: every clock read of the process goes through here (std calls the libc symbol),
+// so reads can be counted and skewed. The core must not read any clock at all.
+
+use std::sync::atomic::AtomicI64;
+
+pub static CLOCK_CALLS: AtomicU64 = AtomicU64::new(0);
+pub static CLOCK_SKEW_NS: AtomicI64 = AtomicI64::new(0);
+
+/// # Safety
+/// `ts` must point to a writable timespec, as for libc's clock_gettime.
+#[no_mangle]
+pub unsafe extern "C" fn clock_gettime(clk: libc::clockid_t, ts: *mut libc::timespec) -> libc::c_int {
+    CLOCK_CALLS.fetch_add(1, Ordering::Relaxed);
+    let r = libc::syscall(libc::SYS_clock_gettime, clk, ts) as libc::c_int;
+    if r == 0 && clk == libc::CLOCK_REALTIME {
+        let skew = CLOCK_SKEW_NS.load(Ordering::Relaxed);
+        if skew != 0 {
+            let total = i128::from((*ts).tv_sec) * 1_000_000_000 + i128::from((*ts).tv_nsec) + i128::from(skew);
+            (*ts).tv_sec = (total.div_euclid(1_000_000_000)) as libc::time_t;
+            (*ts).tv_nsec = (total.rem_euclid(1_000_000_000)) as libc::c_long;
+        }
+    }
+    r
+}
